@@ -348,6 +348,15 @@ def rel_queries(db, prop):
                 qs.append(Query('rel/k/%s' % n, q['c'], checks=['--no-standard-checks', '--bounds-check', '--pointer-check'], meta=q['meta'], timeout=600))
             except (bx2c.Unsupported, f77c.Unsupported, KeyError) as e:
                 skipped.append((n, 'NOT COVERED: ' + str(e)[:300]))
+        # integrand adaptors of the two-electron energy integral
+        for which, md in [(1, None)] + [(2, m_) for m_ in relk.BB_M2] + [(2, 'other')]:
+            qid = 'rel/k/decay0_dshelp%d' % which + ('' if md is None else '/mode%s' % md)
+            try:
+                q = relk.build_dshelp(db, prog, which, propid='C02', mode=md)
+                q['meta']['what'] = 'rel'
+                qs.append(Query(qid, q['c'], checks=['--no-standard-checks', '--bounds-check', '--pointer-check'], meta=q['meta'], timeout=900, mem_gb=12))
+            except (bx2c.Unsupported, f77c.Unsupported, KeyError) as e:
+                skipped.append((qid, 'NOT COVERED: ' + str(e)[:300]))
         # decay0_bb against the reference's bb: one query per cut point and legacy mode (the mode is a constant in each)
         for k, cname, mode in relk.bb_plan():
             try:
@@ -843,13 +852,16 @@ def prop_rel(prop, tier, seed):
         if q.meta.get('function') == 'decay0_bb':
             extra_as.append('decay0_bb: legacy mode 1..20 (one query per mode and cut point); spthe1/spthe2 are compared through the sequence of array reads and writes of each segment, equal tables assumed at each cut point and every write checked')
     return evaluate(prop, queries, results, known, tier, seed, t0, skipped=skipped, selfcheck=sc,
-                    assumptions=ASSUMPTIONS.get('C01', []) + sorted(set(extra_as)),
+                    assumptions=ASSUMPTIONS.get('C01', []) + (ASSUMPTIONS['C02+'] if prop == 'C02' else []) + sorted(set(extra_as)),
                     extra_cov={'routine_pairs': len(queries), 'cut_points': cuts,
                                'reference': 'resources/code/decay0/decay0_2020-04-20.for rendered by f77c on this run',
                                'arithmetic': 'uninterpreted + - * / and libm (equal under every interpretation => equal under IEEE); literals within 5e-6 relative are one constant'})
 
 
 ASSUMPTIONS = {
+    'C02+': ['decay0_gauss (GSL QNG) and the reference gauss (CERNLIB D103 adaptive 8/16-point) are different algorithms for the same integral to the same relative tolerance: treated as one abstract effect of (integrand, limits, eps, closure); their numerical agreement is NOT decided',
+             'dgmlt1/dgmlt2 (CERNLIB D110) are not part of the reference source file: abstract effect of (integrand, limits, ni, ng, closure) on both sides; their quadrature tables are decided by C16, the summation loop is not compared',
+             'genbbsub dispatch, Q-values and levels are the C05/C06 obligations; the cascade routines and fe*_mod/dshelp/tgold/fermi have their own pairs listed here'],
     'C16': ['only the tabulated Gauss-Legendre rules are decided (ground obligations on the real initialisers, bit-precise)',
             'exactness on an arbitrary interval follows by the affine change of variable: real-arithmetic lemma, assumed'],
     'C07': ['frame of L0-L2 kernels: DFCC assigns obligations; frame of L3-L5 bodies: scan of every assignment target in the clang AST (static fact, not a CBMC obligation)',
